@@ -257,6 +257,35 @@ def rule_b(repo, chk, p, ex):
     okd = len(dec) == 1 and src(dec[0].ast.value) == 'len(body_part)' and all(Q.reachable_without(gb, a, avoid_node=lambda m: m in dec) is None
                                                                               for a in appends if not any(k == 'try' for k, _x in a.ctx) and Q.reaches(dec[0], a))
     chk.ob('b', pb.ref, 'the remaining length is reduced by exactly the number of body bytes consumed', okd, loc(pb, pb.node), discr='clen-decrement')
+    # last chunk: complete only once the end of the trailer section (the final CRLF) is in the buffer
+    pcs = p.methods.get('_parse_chunk_size')
+    need(pcs, 'C13.b: _parse_chunk_size missing')
+    chk.touch(pcs)
+    gc = pcs.cfg()
+    last = [n for n in gc.nodes if n.kind == 'stmt' and isinstance(n.ast, ast.Return) and isinstance(n.ast.value, ast.Tuple) and pat.is_const(n.ast.value.elts[0], 0)]
+    need(last, 'C13.b: _parse_chunk_size never reports the last chunk')
+    restv = None
+    for n in gc.nodes:
+        if n.kind == 'stmt' and isinstance(n.ast, ast.Assign) and isinstance(n.ast.targets[0], ast.Tuple) and len(n.ast.targets[0].elts) == 2 and 'idx + 2' in src(n.ast.value):
+            restv = src(n.ast.targets[0].elts[1])
+
+    def term_edge(e):
+        if e.src.kind != 'test' or restv is None:
+            return False
+        f_ = pat.compare_fact(e.src.ast, e.kind)
+        if f_ is None:
+            return False
+        if f_[1] == '==' and {f_[0].replace(' ', ''), f_[2]} == {f'{restv}[:2]', "b'\\r\\n'"}:
+            return True
+        if f_[1] == 'in' and f_[0] == "b'\\r\\n\\r\\n'" and f_[2] == restv:
+            return True
+        if e.kind == 'T' and isinstance(e.src.ast, ast.Call) and src(e.src.ast) in (f"{restv}.startswith(b'\\r\\n')",):
+            return True
+        return False
+    for r in last:
+        q = pat.guarded_by(gc, r, term_edge)
+        chk.ob('b', pcs.ref, 'the last chunk is reported only when the terminating CRLF (end of the trailer section) has been received', q is None, loc(pcs, r.ast),
+               path=pat.path_lines(q) if q else None, discr='last-chunk-waits-for-terminator')
     # chunk step: execute() reads a result of 0 as "last chunk"; a data chunk must therefore never report 0
     zero_ok = [n for n in gb.nodes if n.kind == 'stmt' and isinstance(n.ast, ast.Return) and n.ast.value is not None and src(n.ast.value) == 'size']
     for r in [n for n in gb.nodes if n.kind == 'stmt' and isinstance(n.ast, ast.Return) and n.ast.value is not None and src(n.ast.value).startswith('len(')
